@@ -79,6 +79,11 @@ func (e *Engine) block(st *State, note string) {
 		st.gos = st.gos[:len(st.gos)-1]
 		st.frames = me.frames
 		st.top().pc++
+		if st.interleaveFork {
+			st.status = Finished
+			st.note = "interleaved reader has to wait here (excluded interleaving)"
+			return
+		}
 		st.status = Blocked
 		st.note = note
 		if len(st.gos) > 0 {
@@ -123,6 +128,15 @@ func init() {
 		st.preemptOn = args[0].(*Term).IsTrue()
 		e.modelsUsed["pre-emption at channel/mutex operations (zzverif.Preemptive)"] = true
 		return nil, true
+	}
+	// Interleave(w, r): run w; after EVERY store w performs to an object that existed before w started, also explore the
+	// state in which r runs to completion at that very moment (on the intermediate heap) - the sequentially consistent
+	// interleavings of one reader with one writer at the granularity of the writer's stores. The forked states end after r.
+	exact["zzverif.Interleave"] = func(e *Engine, st *State, fn *ssa.Function, args []Value, retTo *ssa.Call) (Value, bool) {
+		st.interleave = &interleaveCtx{reader: args[1].(FuncV), baseObj: objCounter, depth: len(st.frames)}
+		e.modelsUsed["Interleave: reader forked after every writer store to pre-existing objects"] = true
+		e.callClosure(st, args[0], nil, func(st *State, res Value) { st.interleave = nil }, nil)
+		return pendingV, true
 	}
 	// MustNotBlock(f): run f in the calling goroutine; a deadlock while inside f is the violation "blocked"
 	exact["zzverif.MustNotBlock"] = func(e *Engine, st *State, fn *ssa.Function, args []Value, retTo *ssa.Call) (Value, bool) {
